@@ -61,6 +61,7 @@ type TaskResult struct {
 	Err      string
 	Replays  []string // replay files written for findings
 	Verdicts []string // native replay verdicts
+	Skipped  bool     // not started: the thorough tier's wall-clock budget was used up
 }
 
 type KnownFinding struct {
@@ -234,6 +235,18 @@ func runTasks(P *Program, tasks []Task, tier string, seed int64, trace bool, pro
 		nw = len(tasks)
 	}
 	known := loadKnown()
+	// thorough tier: tasks are started in order until the wall-clock budget is used up; what was not
+	// started is reported as not explored (never as held)
+	budget := time.Duration(0)
+	if tier == "thorough" {
+		budget = 40 * time.Minute
+		if v := os.Getenv("GZV_BUDGET_S"); v != "" {
+			if n, err := strconv.Atoi(v); err == nil && n >= 0 {
+				budget = time.Duration(n) * time.Second
+			}
+		}
+	}
+	tStart := time.Now()
 	var next int64 = -1
 	var wg sync.WaitGroup
 	for w := 0; w < nw; w++ {
@@ -250,6 +263,10 @@ func runTasks(P *Program, tasks []Task, tier string, seed int64, trace bool, pro
 				i := int(atomic.AddInt64(&next, 1))
 				if i >= len(tasks) {
 					return
+				}
+				if budget > 0 && tasks[i].Confirm == "" && time.Since(tStart) > budget {
+					results[i] = TaskResult{Task: tasks[i], Skipped: true}
+					continue
 				}
 				if m == nil {
 					m = sx.NewMachine(P.Prog)
@@ -334,6 +351,16 @@ func runOne(P *Program, m *sx.Machine, t Task, tier string, known []KnownFinding
 	}
 	m.EnableMerge = !t.NoMerge
 	m.MonitorShared = t.Monitor
+	m.Deadline = time.Time{}
+	if tier == "thorough" {
+		lim := 20 * time.Minute
+		if v := os.Getenv("GZV_TASK_LIMIT_S"); v != "" {
+			if n, err := strconv.Atoi(v); err == nil && n > 0 {
+				lim = time.Duration(n) * time.Second
+			}
+		}
+		m.Deadline = time.Now().Add(lim)
+	}
 	m.MaxPaths = 200_000
 	if t.MaxPaths > 0 {
 		m.MaxPaths = t.MaxPaths
@@ -448,7 +475,12 @@ func cmdCheck(args []string) int {
 	replayed, reproduced := 0, 0
 	noReach := 0
 	excluded := 0
+	var notRun []string
 	for i, r := range results {
+		if r.Skipped {
+			notRun = append(notRun, r.Task.String())
+			continue
+		}
 		s := r.Res.Stats
 		agg.Paths += s.Paths
 		agg.Steps += s.Steps
@@ -472,9 +504,20 @@ func cmdCheck(args []string) int {
 			errs = append(errs, r.Task.String()+": "+firstLine(r.Err))
 			fmt.Printf("ENGINE-ERROR %s: %s\n", r.Task, r.Err)
 		}
+		wallLimited := false
+		for _, inc := range r.Res.Incomplete {
+			if strings.HasPrefix(inc, "wall-limit:") {
+				wallLimited = true
+			}
+		}
 		for _, inc := range r.Res.Incomplete {
 			if i >= nMain && strings.HasPrefix(inc, "stopped after") {
 				continue // a confirmation task is expected to find its finding on many paths
+			}
+			if strings.HasPrefix(inc, "wall-limit:") {
+				// thorough tier only: the task is listed as not completed and is not part of the claim
+				notRun = append(notRun, r.Task.String()+" (stopped at the per-task wall-clock limit after "+fmt.Sprint(r.Res.Stats.Paths)+" paths)")
+				continue
 			}
 			incompletes = append(incompletes, r.Task.String()+": "+inc)
 		}
@@ -488,7 +531,7 @@ func cmdCheck(args []string) int {
 		isConfirm := i >= nMain
 		if !isConfirm && s.ReachWitnesses == 0 && s.ExcludedByKnown > 0 {
 			excluded++
-		} else if !isConfirm && !r.Task.NoReach && r.Err == "" && s.ReachWitnesses == 0 && len(r.Res.Findings) == 0 {
+		} else if !isConfirm && !r.Task.NoReach && r.Err == "" && s.ReachWitnesses == 0 && len(r.Res.Findings) == 0 && !wallLimited {
 			// vacuity: unless a known finding excludes the whole task
 			noReach++
 			incompletes = append(incompletes, r.Task.String()+": no reachability witness (vacuous harness?)")
@@ -536,6 +579,9 @@ func cmdCheck(args []string) int {
 	}
 	for _, s := range incompletes {
 		fmt.Println("INCOMPLETE", s)
+	}
+	if len(notRun) > 0 {
+		fmt.Printf("BUDGET: %d of %d tasks were not started within the thorough tier's wall-clock budget (GZV_BUDGET_S, default 2400) or were stopped at the per-task limit (GZV_TASK_LIMIT_S, default 1200) and are not part of this run's claim; they are listed in the evidence\n", len(notRun), len(results))
 	}
 	var fl []string
 	for f := range funcs {
@@ -595,10 +641,11 @@ func cmdCheck(args []string) int {
 				"incremental": atomic.LoadInt64(&solver.QueriesIncr),
 				"fresh":       atomic.LoadInt64(&solver.QueriesFresh),
 			},
-			"load_and_ssa_build_s": round2(loadDur.Seconds()),
-			"engine_errors":        errs,
-			"incomplete":           incompletes,
-			"repo_tree":            repoTreeID(),
+			"load_and_ssa_build_s":            round2(loadDur.Seconds()),
+			"engine_errors":                   errs,
+			"incomplete":                      incompletes,
+			"tasks_not_started_within_budget": notRun,
+			"repo_tree":                       repoTreeID(),
 		},
 		Assumptions: def.Assumptions,
 	}
